@@ -1,5 +1,9 @@
 import ParryModel.C17.Lemmas
 import ParryModel.C17.Theorems2
+import ParryModel.C17.Theorems3
+import ParryModel.C17.Theorems4
+import ParryModel.C17.Theorems5
+import ParryModel.C17.Theorems6
 /-!
 # C17 property theorems: cutting and clipping, for every linearly ordered field.
 All statements quantify over the model functions of `C17/Model.lean` instantiated at the lawful instance `fieldNum K sq`.
@@ -1064,5 +1068,91 @@ would swallow this cut). -/
 example : ((⟨0, 0, 0⟩ : V3 ℚ).get 0 < 19/2 - 1/10 ∧ (19/2 : ℚ) + 1/10 < (⟨10, 0, 0⟩ : V3 ℚ).get 0) ∧
     eps52 ℚ < |(⟨10, 0, 0⟩ : V3 ℚ).get 0 - (⟨0, 0, 0⟩ : V3 ℚ).get 0| := by
   simp only [V3.get, eps52]; norm_num
+
+
+/-! ## `Aabb::clip_line`, `Aabb::clip_ray` (segment constructors) -/
+
+private theorem seg_of_params (o d : V3 K) (t0 t1 : K) (h : t0 ≤ t1) (p : V3 K) :
+    letI := fieldNum K sq
+    (Segment3.mk (o.add (d.smul t0)) (o.add (d.smul t1))).Mem p ↔ ∃ t, t0 ≤ t ∧ t ≤ t1 ∧ p = lineAt o d t := by
+  letI : Num K := fieldNum K sq
+  simp only [Segment3.Mem]
+  constructor
+  · rintro ⟨u, u0, u1, rfl⟩
+    refine ⟨t0 + u * (t1 - t0), by nlinarith, by nlinarith, ?_⟩
+    simp only [lineAt, V3.add, V3.sub, V3.smul, V3.mk.injEq]
+    refine ⟨?_, ?_, ?_⟩ <;> ring
+  · rintro ⟨t, h0, h1, rfl⟩
+    rcases eq_or_lt_of_le h with heq | hlt
+    · have : t = t0 := le_antisymm (by linarith) h0
+      subst this
+      refine ⟨0, le_refl _, zero_le_one, ?_⟩
+      simp only [lineAt, V3.add, V3.sub, V3.smul, V3.mk.injEq]
+      refine ⟨?_, ?_, ?_⟩ <;> ring
+    · have hne : t1 - t0 ≠ 0 := ne_of_gt (by linarith)
+      refine ⟨(t - t0) / (t1 - t0), div_nonneg (by linarith) (by linarith), (div_le_one (by linarith)).mpr (by linarith), ?_⟩
+      simp only [lineAt, V3.add, V3.sub, V3.smul, V3.mk.injEq]
+      refine ⟨?_, ?_, ?_⟩ <;> field_simp <;> ring
+
+/-- **C17 (`Aabb::clip_line`)**: the returned segment is *exactly* the part of the line `{orig + t·dir, |t| ≤ f64::MAX}` inside the
+box, as a point set; `None` exactly when the line misses the box. Every direction (zero components, zero vector, non-unit). -/
+theorem clip_line_spec (b : Aabb3 K) (o d : V3 K) (hb : ValidBox b) :
+    letI := fieldNum K sq
+    match clipLine b o d with
+    | some s => ∀ p, s.Mem p ↔ ∃ t, (-big K ≤ t ∧ t ≤ big K) ∧ p = lineAt o d t ∧ BMem b p
+    | none => ∀ t, -big K ≤ t → t ≤ big K → ¬ BMem b (lineAt o d t) := by
+  letI : Num K := fieldNum K sq
+  have key := clip_line_parameters_spec sq b o d hb
+  simp only [clipLine, clipLineParameters] at key ⊢
+  revert key
+  cases @clipAabbLineC K (fieldNum K sq) b o d with
+  | none => intro key; exact key
+  | some c =>
+    intro key
+    simp only [Option.map_some] at key ⊢
+    obtain ⟨h01, hk⟩ := key
+    intro p
+    rw [seg_of_params sq o d _ _ h01 p]
+    constructor
+    · rintro ⟨t, a1, a2, rfl⟩
+      obtain ⟨r, m⟩ := (hk t).mp ⟨a1, a2⟩
+      exact ⟨t, r, rfl, m⟩
+    · rintro ⟨t, r, rfl, m⟩
+      obtain ⟨a1, a2⟩ := (hk t).mpr ⟨r, m⟩
+      exact ⟨t, a1, a2, rfl⟩
+
+/-- **C17 (`Aabb::clip_ray`)**: the returned segment is *exactly* the part of the ray `{origin + t·dir, 0 ≤ t ≤ f64::MAX}` inside
+the box; `None` exactly when the ray misses the box (a box behind the origin included). -/
+theorem clip_ray_spec (b : Aabb3 K) (o d : V3 K) (hb : ValidBox b) :
+    letI := fieldNum K sq
+    match clipRay b o d with
+    | some s => ∀ p, s.Mem p ↔ ∃ t, (0 ≤ t ∧ t ≤ big K) ∧ p = lineAt o d t ∧ BMem b p
+    | none => ∀ t, 0 ≤ t → t ≤ big K → ¬ BMem b (lineAt o d t) := by
+  letI : Num K := fieldNum K sq
+  have key := clip_ray_parameters_spec sq b o d hb
+  simp only [clipRay] at key ⊢
+  revert key
+  cases @clipRayParameters K (fieldNum K sq) b o d with
+  | none => intro key; exact key
+  | some c =>
+    intro key
+    simp only [Option.map_some] at key ⊢
+    obtain ⟨h01, hk⟩ := key
+    intro p
+    rw [seg_of_params sq o d _ _ h01 p]
+    constructor
+    · rintro ⟨t, a1, a2, rfl⟩
+      obtain ⟨r, m⟩ := (hk t).mp ⟨a1, a2⟩
+      exact ⟨t, r, rfl, m⟩
+    · rintro ⟨t, r, rfl, m⟩
+      obtain ⟨a1, a2⟩ := (hk t).mpr ⟨r, m⟩
+      exact ⟨t, a1, a2, rfl⟩
+
+example : (letI := fieldNum ℚ id; (clipLine (⟨⟨0, 0, 0⟩, ⟨1, 2, 3⟩⟩ : Aabb3 ℚ) ⟨3, 1, 1⟩ ⟨1, 0, 0⟩).map fun s => (s.a.x, s.b.x)) = some (0, 1) := by
+  decide +kernel
+example : (letI := fieldNum ℚ id; (clipRay (⟨⟨0, 0, 0⟩, ⟨1, 2, 3⟩⟩ : Aabb3 ℚ) ⟨1/2, 1, 1⟩ ⟨2, 0, 0⟩).map fun s => (s.a.x, s.b.x)) = some (1/2, 1) := by
+  decide +kernel
+example : (letI := fieldNum ℚ id; (clipRay (⟨⟨0, 0, 0⟩, ⟨1, 2, 3⟩⟩ : Aabb3 ℚ) ⟨3, 1, 1⟩ ⟨1, 0, 0⟩).isNone) = true := by
+  decide +kernel
 
 end C17
